@@ -5,7 +5,17 @@ configured in a client EncryptedExtensions that the hooked server reads into its
 import nego_common as nc, vlib
 
 def run(ctx):
-    scns, events, rej, unadv, mc = nc.run_nego(ctx, "c22", shards=6, extra_ids=[], subset=lambda xs: xs + [dict(x, alps_first=True) for x in xs if x["ver"] == 772])
+    def subset(xs):
+        out = xs + [dict(x, alps_first=True) for x in xs if x["ver"] == 772]
+        # client settings of other lengths than 4 bytes (length bytes of the client's EncryptedExtensions: one- and two-byte
+        # boundaries), one handshake per (parrot, code point, length)
+        seen = set()
+        for x in xs:
+            if x["ver"] == 772 and x["client_alps"] == "has" and x["alpn"] == ["h2"] and x["alps_settings"] and (x["id"], x["alps_cp"]) not in seen:
+                seen.add((x["id"], x["alps_cp"]))
+                out += [dict(x, client_alps_len=n) for n in (1, 249, 250, 251, 252, 255, 256, 506, 507, 1000)]
+        return out
+    scns, events, rej, unadv, mc = nc.run_nego(ctx, "c22", shards=6, extra_ids=[], subset=subset)
     for r in rej:
         d = nc.sig_detail(r["detail"])
         s = r["scn"]
